@@ -43,6 +43,38 @@ func T3(n int) dbgen.Table {
 	return t
 }
 
+// T4: a WITHOUT ROWID table with a three column primary key and secondary
+// indexes over every kind of subset of the primary key columns (an earlier
+// column without a later one, a later without an earlier, none, all, in
+// another order), so that the appended key columns land on every position.
+const T4SQL = `CREATE TABLE t4 (p1, p2, p3, x, y, PRIMARY KEY (p1, p2, p3)) WITHOUT ROWID`
+
+func T4(n int) dbgen.Table {
+	t := dbgen.Table{Name: "t4", SQL: T4SQL, NCols: 5, ColNames: []string{"p1", "p2", "p3", "x", "y"}, RowidAlias: -1, WithoutRowid: true,
+		Defaults: make([]interface{}, 5), PK: []dbgen.IdxCol{{Col: 0}, {Col: 1}, {Col: 2}}, ColColl: make([]string, 5)}
+	for i := 0; i < n; i++ {
+		t.Rows = append(t.Rows, dbgen.Row{Vals: []interface{}{int64(i % 3), fmt.Sprintf("q%d", (i/3)%3), int64(100 - i), mixVal(i % 5), fmt.Sprintf("y%d", i)}})
+	}
+	ix := func(name, def string, cols ...dbgen.IdxCol) dbgen.Index {
+		return dbgen.Index{Name: name, SQL: "CREATE INDEX " + name + " ON t4 (" + def + ")", Cols: cols}
+	}
+	t.Indexes = []dbgen.Index{
+		ix("t4_p1", "p1", dbgen.IdxCol{Col: 0}),
+		ix("t4_p2", "p2", dbgen.IdxCol{Col: 1}),
+		ix("t4_p3", "p3", dbgen.IdxCol{Col: 2}),
+		ix("t4_xp1", "x, p1", dbgen.IdxCol{Col: 3}, dbgen.IdxCol{Col: 0}),
+		ix("t4_xp2", "x, p2", dbgen.IdxCol{Col: 3}, dbgen.IdxCol{Col: 1}),
+		ix("t4_xp3", "x, p3", dbgen.IdxCol{Col: 3}, dbgen.IdxCol{Col: 2}),
+		ix("t4_p1p3", "p1, p3", dbgen.IdxCol{Col: 0}, dbgen.IdxCol{Col: 2}),
+		ix("t4_p3p1", "p3, p1", dbgen.IdxCol{Col: 2}, dbgen.IdxCol{Col: 0}),
+		ix("t4_x", "x", dbgen.IdxCol{Col: 3}),
+		ix("t4_p2x", "p2 DESC, x", dbgen.IdxCol{Col: 1, Desc: true}, dbgen.IdxCol{Col: 3}),
+		ix("t4_all", "p3, x, p2, p1", dbgen.IdxCol{Col: 2}, dbgen.IdxCol{Col: 3}, dbgen.IdxCol{Col: 1}, dbgen.IdxCol{Col: 0}),
+		ix("t4_y", "y", dbgen.IdxCol{Col: 4}),
+	}
+	return t
+}
+
 // tableRowFor maps an index entry back to the logical table row
 func tableRowFor(u *indexUnderTest) func(entry []interface{}) (dbgen.Row, bool) {
 	t := u.table
@@ -134,7 +166,7 @@ func forIndexImages(r *ev.Run, fn func(si *ShapeImage)) {
 	}
 	for _, ps := range sizes {
 		for _, big := range []int{0, ps + 200} {
-			spec := &dbgen.Spec{PageSize: ps, Tables: []dbgen.Table{T1(rowidSet(22, 1), big), T2(30, big), T3(40)}}
+			spec := &dbgen.Spec{PageSize: ps, Tables: []dbgen.Table{T1(rowidSet(22, 1), big), T2(30, big), T3(40), T4(26)}}
 			img, err := dbgen.Build(spec)
 			if err != nil {
 				r.Harness("dbgen: %v", err)
